@@ -253,7 +253,7 @@ def obs_log(rc, out, err):
     if "No migrations found." in out:
         return ("none",)
     entries = []
-    for line in out.splitlines():
+    for line in out.split("\n"):
         m = re.match(r"^Version: (\d+)$", line)
         if m:
             entries.append((int(m.group(1)), []))
@@ -270,11 +270,12 @@ BACKENDS = ["postgres", "mysql", "sqlite"]
 
 
 def log_blocks(out):
-    """`log` stdout -> [(version, [(action display line, text printed under it)])]; log.rs:62-97 prints per action the
+    """(lines are split at \\n only: str.splitlines would also break at U+0085 / U+2028, which user text may contain)
+    `log` stdout -> [(version, [(action display line, text printed under it)])]; log.rs:62-97 prints per action the
     non-empty trimmed statements, numbered i-j when there are several"""
     res = []
     cur = None
-    for line in out.splitlines():
+    for line in out.split("\n"):
         m = re.match(r"^Version: (\d+)$", line)
         if m:
             res.append((int(m.group(1)), []))
@@ -298,7 +299,7 @@ def sql_blocks(out):
     ones included), numbered i or i-j"""
     res = []
     cur = None
-    for line in out.splitlines():
+    for line in out.split("\n"):
         m = re.match(r"^Action: (.*)$", line)
         if m and m.group(1).partition(": ")[0] in KINDS:
             cur = [m.group(1), []]
@@ -322,7 +323,7 @@ def expected_sql_block(i, stmts):
 
 
 def norm_block(b):
-    return "\n".join(l.rstrip() for l in b.splitlines()).rstrip()
+    return "\n".join(l.rstrip() for l in b.split("\n")).rstrip()
 
 
 def hcli_render(hcli, pdir):
@@ -643,8 +644,9 @@ def draw_config(rng, i):
         cfg["prefix"] = "app_"
     if rng.random() < 0.3:
         cfg["modelsDir"], cfg["migrationsDir"] = "db/models", "db/migs"
-    cfg["migrationFormat"] = rng.choice(["json", "json", "yaml", "yml"])
-    cfg["modelFormat"] = rng.choice(["json", "yaml"])
+    # the two formats are independent settings, each one of json / yaml / yml
+    cfg["migrationFormat"] = rng.choice(["json", "yaml", "yml"])
+    cfg["modelFormat"] = rng.choice(["json", "yaml", "yml"])
     cfg["migrationFilenamePattern"] = rng.choice(PATTERNS)
     return cfg
 
@@ -653,7 +655,8 @@ def layout_models(rng, tables, fmt):
     """{rel path: text} for one model set: extension per format, some files in sub-directories / with the .vespertide infix"""
     files = {}
     for t in tables:
-        ext = {"json": "json", "yaml": rng.choice(["yaml", "yml"])}[fmt]
+        # mostly the configured model format, sometimes another one (the loader reads all three side by side)
+        ext = fmt if rng.random() < 0.8 else rng.choice(["json", "yaml", "yml"])
         stem = t["name"] + (".vespertide" if rng.random() < 0.2 else "")
         sub = rng.choice(["", "", "", "sub/", "a/b/"])
         text = json.dumps(t["json"], indent=1) if ext == "json" else t["yaml"]
@@ -750,15 +753,19 @@ def fill_streams():
 def run_fill_stream(hcli, base, idx, spec, seed):
     name, steps, mode = spec
     rng = random.Random(seed * 31 + idx)
+    # every stream index gets a fixed (migration format, model format) pair so that json / yaml / yml are all covered
+    fmts = ["json", "yaml", "yml"]
     cfg = {"modelsDir": "models", "migrationsDir": "migrations", "tableNamingCase": "snake", "columnNamingCase": "snake",
-           "migrationFormat": rng.choice(["json", "json", "yaml"])}
+           "migrationFormat": fmts[idx % 3], "modelFormat": fmts[(idx // 3) % 3]}
+    mext = cfg["modelFormat"]
     pdir = os.path.join(base, "f%03d" % idx)
     shutil.rmtree(pdir, ignore_errors=True)
     write_project(pdir, cfg)
     backend = rng.choice(BACKENDS)
     rows = []
     for si, models in enumerate(steps):
-        write_models(pdir, cfg, {rel: json.dumps(t, indent=1) for rel, t in models.items()})
+        # JSON text is YAML text as well, so the same text serves the .yaml / .yml model files
+        write_models(pdir, cfg, {os.path.splitext(rel)[0] + "." + mext: json.dumps(t, indent=1) for rel, t in models.items()})
         a = observe(hcli, pdir, cfg, "step %d" % si, "all" if si == 0 else mode, backend, "fill:%s:%d:a" % (name, si))
         rows.append(a)
         if "skip" in a:
@@ -806,9 +813,14 @@ def c12_part(tier, seed):
             if v == "err" and o["diff"][0] != "err":
                 bad.append((r, "after `revision` wrote %s, `%s` exits 1" % (o["wrote"]["file"], cmd)))
                 break
+        if po["rev"] == "err" and not po["rev_refused"] and not po["rev_noterm"] and o["diff"][0] != "err":
+            bad.append((r, "after `revision` wrote %s, the next `revision` exits 1" % o["wrote"]["file"]))
         if po["diff"][0] == "changes":
             bad.append((r, "after `revision` wrote %s, `diff` still lists %d change(s)" % (o["wrote"]["file"], len(po["diff"][1]))))
-    details = {"streams": len(fill_streams()), "observations": len(rows), "revisions_written": wrote, "failures": [(r["tag"], t) for r, t in bad][:10]}
+    import collections
+    fm = collections.Counter("%s/%s" % (r["config"].get("migrationFormat"), r["config"].get("modelFormat")) for r in rows if r["obs"]["rev"] == "wrote")
+    details = {"streams": len(fill_streams()), "observations": len(rows), "revisions_written": wrote,
+               "written_by_migration_format/model_format": dict(fm), "failures": [(r["tag"], t) for r, t in bad][:10]}
     fi = None
     if bad:
         r = bad[0][0]
@@ -816,6 +828,154 @@ def c12_part(tier, seed):
               "tty": r["tty"], "what": bad[0][1], "written": r["obs"].get("wrote")}
     shutil.rmtree(base, ignore_errors=True)
     return {"ok": not bad, "details": details, "failing_input": fi}
+
+
+
+# =================================================================================== C14 at the CLI level
+def c14_fk_streams():
+    """projects with prefix and a foreign key, and a pending change on the FK-carrying table that makes SQLite rebuild it"""
+    ID = {"name": "id", "type": "integer", "nullable": False, "primary_key": True}
+    users = {"name": "users", "columns": [ID, {"name": "email", "type": "text", "nullable": True}]}
+
+    def posts(fk="inline", slug_unique=True, n_type="integer", n_nullable=True, n_default=None, extra_index=False, keep_fk=True):
+        uid = {"name": "user_id", "type": "integer", "nullable": False}
+        cons = []
+        if keep_fk:
+            if fk == "inline":
+                uid["foreign_key"] = "users.id"
+            elif fk == "object":
+                uid["foreign_key"] = {"ref_table": "users", "ref_columns": ["id"], "on_delete": "cascade"}
+            else:
+                cons.append({"type": "foreign_key", "columns": ["user_id"], "ref_table": "users", "ref_columns": ["id"]})
+        slug = {"name": "slug", "type": "text", "nullable": False}
+        if slug_unique:
+            slug["unique"] = True
+        n = {"name": "n", "type": n_type, "nullable": n_nullable}
+        if n_default is not None:
+            n["default"] = n_default
+        if extra_index:
+            n["index"] = True
+        return {"name": "posts", "columns": [ID, uid, slug, n], "constraints": cons}
+    out = []
+    for fk in ("inline", "object", "table"):
+        edits = {"drop-unique": dict(slug_unique=False), "type": dict(n_type="big_int"), "notnull": dict(n_nullable=False),
+                 "default": dict(n_default=7), "index": dict(extra_index=True), "drop-fk": dict(keep_fk=False)}
+        for name, kw in edits.items():
+            out.append(("%s-%s" % (fk, name), [[users, posts(fk=fk)], [users, posts(fk=fk, **kw)]]))
+    return out
+
+
+def compare_with_literal(hcli, pdir, tag):
+    """run `sql` and `log` for the three backends on the project and on its literal renaming (hcli literal); returns diffs"""
+    lit = pdir.rstrip("/") + "__literal"
+    p = subprocess.run([hcli, "literal", pdir, lit], capture_output=True, timeout=120)
+    try:
+        info = json.loads(p.stdout.decode(errors="replace").strip().splitlines()[-1])
+    except Exception:
+        info = {"ok": False, "error": p.stderr.decode(errors="replace")[-300:]}
+    if not info.get("ok"):
+        return None, info
+    diffs = []
+    n = 0
+    for b in BACKENDS:
+        for cmd in ("sql", "log"):
+            rc1, out1, err1 = run_cmd([cmd, "--backend", b], pdir)
+            rc2, out2, err2 = run_cmd([cmd, "--backend", b], lit)
+            n += 1
+            if rc1 != rc2:
+                diffs.append({"cmd": cmd, "backend": b, "what": "exit status %d with the prefix, %d on the renamed project" % (rc1, rc2),
+                              "stderr": (err1 or err2)[-300:]})
+            elif rc1 == 0 and out1 != out2:
+                l1, l2 = out1.splitlines(), out2.splitlines()
+                k = next((i for i in range(min(len(l1), len(l2))) if l1[i] != l2[i]), min(len(l1), len(l2)))
+                diffs.append({"cmd": cmd, "backend": b, "what": "stdout differs at line %d" % (k + 1),
+                              "with_prefix": l1[k][:400] if k < len(l1) else None, "renamed_project": l2[k][:400] if k < len(l2) else None})
+    shutil.rmtree(lit, ignore_errors=True)
+    return diffs, {"comparisons": n, "prefix": info.get("prefix")}
+
+
+def revise_with_fills(hcli, pdir, cfg, message):
+    md, gd = os.path.join(pdir, cfg["modelsDir"]), os.path.join(pdir, cfg["migrationsDir"])
+    rows = hcli_parse(hcli, walk_models(md), list_migrations(gd))
+    args = ["revision", "-m", message]
+    for r in rows:
+        if r["kind"] == "missing":
+            for it in r["items"]:
+                v = ("'%s'" % it["enum"][0]) if it.get("enum") else it["default"]
+                args += ["--fill-with", "%s.%s=%s" % (it["table"], it["column"], v)]
+    return run_cmd(args, pdir)
+
+
+def c14_part(tier, seed):
+    """C14 at the CLI level (a prefix renames tables and nothing else): for projects with a non-empty prefix, `vespertide sql`
+    and `vespertide log` (sqlite / postgres / mysql) print byte for byte what they print on the literally renamed project with
+    an empty prefix.  Projects: the cached K-cli projects that have a prefix (final state), generated evolutions under a
+    prefix (pending plan before each revision, history after it), and FK streams with rebuild-forcing edits.
+    returns dict(ok, details, failing_input)"""
+    hcli, err = build_all()
+    if err:
+        return {"ok": False, "details": {"build_error": err}, "failing_input": None}
+    base = os.path.join(WORK, "c14part_%s_%s" % (tier, seed))
+    shutil.rmtree(base, ignore_errors=True)
+    os.makedirs(base)
+    rng = random.Random(seed * 1409 + 14)
+    bad, states, comparisons, skipped = [], 0, 0, 0
+
+    def check(pdir, tag, cfg):
+        nonlocal states, comparisons, skipped
+        diffs, info = compare_with_literal(hcli, pdir, tag)
+        if diffs is None:
+            skipped += 1
+            return
+        states += 1
+        comparisons += info["comparisons"]
+        for d in diffs:
+            bad.append((tag, cfg, pdir, d))
+
+    def snapshot_project(pdir, cfg):
+        md, gd = os.path.join(pdir, cfg["modelsDir"]), os.path.join(pdir, cfg["migrationsDir"])
+        return {"config": cfg, "models": {os.path.relpath(f, md): open(f).read() for f in walk_models(md)},
+                "migrations": {os.path.basename(f): open(f).read() for f in list_migrations(gd)}}
+    failing = None
+    # (a) cached K-cli projects with a prefix, as the last C13 run left them
+    cached = 0
+    for d in sorted(glob.glob(os.path.join(WORK, "c13_%s_*" % tier, "p*"))):
+        try:
+            cfg = json.load(open(os.path.join(d, "vespertide.json")))
+        except Exception:
+            continue
+        if cfg.get("prefix"):
+            cached += 1
+            n0 = len(bad)
+            check(d, "cached:" + os.path.basename(d), cfg)
+            if len(bad) > n0 and failing is None:
+                failing = snapshot_project(d, cfg)
+    # (b) FK streams with rebuild-forcing edits, (c) generated evolutions, all under a prefix
+    streams = [("fk:" + n, [[{"name": t["name"], "json": t} for t in st] for st in steps]) for n, steps in c14_fk_streams()]
+    nevo = 40 if tier == "thorough" else 12
+    for e in gen_evolutions(hcli, seed + 14, nevo, 3):
+        streams.append(("gen:%d" % e["id"], e["steps"]))
+    for idx, (name, steps) in enumerate(streams):
+        cfg = {"modelsDir": "models", "migrationsDir": "migrations", "tableNamingCase": "snake", "columnNamingCase": "snake",
+               "prefix": rng.choice(["app_", "app_", "p", "X-"]), "migrationFormat": rng.choice(["json", "yaml", "yml"])}
+        pdir = os.path.join(base, "q%03d" % idx)
+        write_project(pdir, cfg)
+        for si, tables in enumerate(steps):
+            write_models(pdir, cfg, {"%s.json" % t["name"]: json.dumps(t["json"], indent=1) for t in tables})
+            n0 = len(bad)
+            check(pdir, "%s:%d:pending" % (name, si), cfg)
+            if len(bad) > n0 and failing is None:
+                failing = snapshot_project(pdir, cfg)
+            revise_with_fills(hcli, pdir, cfg, "step %d" % si)
+            n0 = len(bad)
+            check(pdir, "%s:%d:revised" % (name, si), cfg)
+            if len(bad) > n0 and failing is None:
+                failing = snapshot_project(pdir, cfg)
+    details = {"project_states": states, "cached_kcli_projects_with_prefix": cached, "streams": len(streams), "skipped_unparsable": skipped,
+               "sql_log_comparisons (3 backends)": comparisons,
+               "failures": [{"tag": t, "prefix": c.get("prefix"), **d} for t, c, _, d in bad][:8]}
+    shutil.rmtree(base, ignore_errors=True)
+    return {"ok": not bad, "details": details, "failing_input": failing}
 
 
 def sizes(tier):
